@@ -133,8 +133,10 @@ def validate(ctx, traces, label, N=6):
         ctx.add_tlc(f"AccelTrace[{label}:{i}]", res, require_ok=False)
         got = {}
         for v in tlc.extract_printed(res.output, "VERDICT"):
+            # several branches per history (see AccelTrace!Consume): keep the one that conformed longest
             cur = got.get(v[1])
-            if cur is None or (cur[2] == "ok" and v[2] != "ok") or (cur[4] == 0 and v[4] != 0):
+            rank = (v[4] == 0, v[4], v[2] == "ok")
+            if cur is None or rank > (cur[4] == 0, cur[4], cur[2] == "ok"):
                 got[v[1]] = v
         if not res.completed or len(got) != len(chunk):
             raise MachineryError(f"trace validation incomplete ({len(got)}/{len(chunk)} verdicts)\n{res.output[-3000:]}")
